@@ -4,6 +4,7 @@ import SSV.Proofs.PacketLimit
 import SSV.Proofs.PacketHistory
 import SSV.Proofs.PacketHistoryDown
 import SSV.Proofs.PacketUsers
+import SSV.Proofs.PacketRefused
 /-
 C05 — UDP packets survive pack/unpack unchanged and never exceed the path MTU.
 Property theorems only; helper lemmas are in SSV/Proofs/Packet*.lean. The model (SSV/Model/Packet.lean,
@@ -203,6 +204,49 @@ theorem frame_plain_server (hdr3 : Bool) (limit : Int) (b : Bytes) (a : AddrPort
     r.buf.drop (r.packetStart + r.packetLen).toNat = b.drop (r.packetStart + r.packetLen).toNat :=
   plainServerPack_frame hdr3 limit b a ps pl r ha hpay h
 
+/-! ## frame on refusal -/
+
+/-- frame_refused_none / _socks5 (client packer): a refused pack is `ErrPayloadTooBig`; the code has by then STILL
+written the header (the write follows the size check), and the buffer it leaves (`plainClientPackRefusedBuf`, compared
+with the real buffer by the correspondence run) differs from the input only inside `[payloadStart − |header|, payloadStart)`:
+the payload and everything behind it, and everything in front of the header, are untouched. -/
+theorem frame_refused_plain_client (hdr3 : Bool) (limit : Int) (b : Bytes) (a : Addr) (ps pl : Nat) (e : Err) (ha : a.wf)
+    (h : plainClientPack hdr3 limit b a ps pl = .err e) :
+    e = .tooBig ∧ (plainHead hdr3 (encodeAddr a)).length ≤ ps ∧ ps ≤ b.length ∧
+    (plainClientPackRefusedBuf hdr3 b a ps).length = b.length ∧
+    (plainClientPackRefusedBuf hdr3 b a ps).take (ps - (plainHead hdr3 (encodeAddr a)).length) = b.take (ps - (plainHead hdr3 (encodeAddr a)).length) ∧
+    (plainClientPackRefusedBuf hdr3 b a ps).drop ps = b.drop ps :=
+  plainClientPack_refused hdr3 limit b a ps pl e ha h
+
+theorem frame_refused_plain_server (hdr3 : Bool) (limit : Int) (b : Bytes) (a : AddrPort) (ps pl : Nat) (e : Err) (ha : a.wf)
+    (h : plainServerPack hdr3 b a ps pl limit = .err e) :
+    e = .tooBig ∧ (plainHead hdr3 (encodeAddrPort a)).length ≤ ps ∧ ps ≤ b.length ∧
+    (plainServerPackRefusedBuf hdr3 b a ps).length = b.length ∧
+    (plainServerPackRefusedBuf hdr3 b a ps).take (ps - (plainHead hdr3 (encodeAddrPort a)).length) = b.take (ps - (plainHead hdr3 (encodeAddrPort a)).length) ∧
+    (plainServerPackRefusedBuf hdr3 b a ps).drop ps = b.drop ps :=
+  plainServerPack_refused hdr3 limit b a ps pl e ha h
+
+/-- frame_refused_ss2022 (packers): the only refusal is `ErrPayloadTooBig` at the padding guard, which precedes every
+write of `PackInPlace` (the model function performs no buffer operation before it): nothing is modified. -/
+theorem frame_refused_ss2022_pack (c : Crypto) (userBlock aeadKey : Bytes) (eih : List (Bytes × Bytes)) (mps : Int) (pol : Policy)
+    (b : Bytes) (a : Addr) (src : AddrPort) (ps pl rand : Nat) (ts sid pid csid : Bytes) (e : Err) :
+    (ssClientPack c userBlock aeadKey eih mps pol b a ps pl rand ts sid pid = .err e → e = .tooBig) ∧
+    (ssServerPack c userBlock aeadKey pol b src ps pl mps rand ts sid pid csid = .err e → e = .tooBig) :=
+  ⟨ssClientPack_refused c userBlock aeadKey eih mps pol b a ps pl rand ts sid pid e,
+   ssServerPack_refused c userBlock aeadKey pol b src ps pl mps rand ts sid pid csid e⟩
+
+/-- frame_refused_unpack_partial. Proved: the none / SOCKS5 / direct unpackers never write (a successful unpack returns
+the very buffer it was given; their code contains no store into `b`). MISSING: the ss2022 unpackers write inside the
+packet window BEFORE they can fail (the separate header and the identity header are decrypted in place, a failed
+`Open` clears the plaintext area, a header error leaves the opened plaintext); `Outcome.err` carries no buffer, so
+"a refused ss2022 unpack modifies only `[packetStart, packetStart+packetLen)`" is checked by the oracle
+(`canary` / `canary-on-error`) and not yet a theorem. -/
+theorem frame_refused_unpack_partial (hdr3 : Bool) (b : Bytes) (q n : Nat) (target : Addr) (src : AddrPort) :
+    (∀ u, plainServerUnpack hdr3 b q n = .ok u → u.buf = b) ∧
+    (∀ server pktSrc u, plainClientUnpack hdr3 server pktSrc b q n = .ok u → u.buf = b) ∧
+    (directServerUnpack target b q n = .ok ⟨b, target, q, n⟩) ∧ (directClientUnpack src b q n = .ok ⟨b, src, q, n⟩) :=
+  ⟨fun _ h => (plainServerUnpack_ok h).1, fun _ _ _ h => (plainClientUnpack_ok h).1, rfl, rfl⟩
+
 /-! ## relay safety -/
 
 /-- relay_safe, uplink: every server protocol × client protocol (ss2022 with any number of identity headers on
@@ -388,6 +432,10 @@ end SSV.C05
 #print axioms SSV.C05.frame_ss2022_server
 #print axioms SSV.C05.frame_plain_client
 #print axioms SSV.C05.frame_plain_server
+#print axioms SSV.C05.frame_refused_plain_client
+#print axioms SSV.C05.frame_refused_plain_server
+#print axioms SSV.C05.frame_refused_ss2022_pack
+#print axioms SSV.C05.frame_refused_unpack_partial
 #print axioms SSV.C05.relay_safe_up
 #print axioms SSV.C05.relay_safe_down
 #print axioms SSV.C05.direct_target_only_domain_panics
